@@ -762,6 +762,16 @@ def _r7(model, res, E):
             if o.imprecise or o.kind != 'return' or o.value.tag == 'err' or isinstance(o.value, Const):
                 continue
             bad = [x for x in _ops(o.value) if x in ('floordiv', 'mod', 'math.fmod', 'math.remainder')]
+            # the quotient handed to floor / ceil is the true one: rounded first (round(q, 9) to hide binary noise), every number within the
+            # rounding tolerance of a multiple is moved onto it and comes out on the wrong side (ROUNDDOWN(2.9999999999, 0) = 3)
+            snapped = [t_ for t_ in _subterms(o.value) if isinstance(t_, Atom) and t_.op.split('.')[-1] in ('ceil', 'floor', 'trunc')
+                       and any(isinstance(u_, Atom) and u_.op == 'round' for a_ in t_.args for u_ in _subterms(a_))]
+            res.ob('R7', name, {'floor/ceil of the unrounded quotient': repr(o.value)[:80]}, not snapped)
+            if snapped:
+                res.violation('R7', 'function:%s:quotient-rounded-before-floor-ceil' % name, m.where(f),
+                              '%s applies %s to a quotient that was rounded first (%r): a number closer to a multiple than the rounding tolerance, '
+                              'but not on it, is moved onto the multiple and the result is the multiple on the wrong side'
+                              % (name, snapped[0].op, snapped[0]), func=f.name)
             res.ob('R7', name, {'result': repr(o.value)[:80]}, not bad)
             if bad:
                 res.violation('R7', 'function:%s:float-floor-division' % name, m.where(f),
